@@ -43,10 +43,10 @@ COMPONENTS = {
     "stub": ["protocol leg: corrector callable (scripted outcomes), predictor/parameter getter (index add / index read)"],
 }
 TIERS = {
-    "quick": {"budget_s": 45.0, "max_runs": 60000, "chunk": 250, "run_timeout": 120.0, "min_budget": 30.0,
-              "enum_len_ar": 7, "enum_len_arx": 5, "e2e_runs": 0, "e2e_budget_s": 150.0},
+    "quick": {"budget_s": 30.0, "max_runs": 150000, "chunk": 250, "run_timeout": 120.0, "min_budget": 30.0,
+              "enum_len_ar": 7, "enum_len_arx": 5, "e2e_runs": 100000, "e2e_budget_s": 60.0},
     "thorough": {"budget_s": 420.0, "max_runs": 3_000_000, "chunk": 500, "run_timeout": 120.0, "min_budget": 60.0,
-                 "enum_len_ar": 10, "enum_len_arx": 7, "e2e_runs": 0, "e2e_budget_s": 900.0},
+                 "enum_len_ar": 10, "enum_len_arx": 7, "e2e_runs": 10000000, "e2e_budget_s": 900.0},
 }
 
 KINDS = ["pass", "reject", "raise_conv", "raise_bare", "pass_jitter", "pass_far", "pass_nanres", "pass_tuple3", "reject_npfalse"]
